@@ -108,8 +108,73 @@ def generate(rng, tier):
                 c = mk_case(elt, kind, vals, "general-%s-%s" % (kind, elt), nontrivial=(lp >= 2 and lq >= 2))
                 c.meta["approx"] = True
                 cases.append(c)
+    cases += special_structure_cases(rng, tier)
     # printing 64-bit patterns dominates the model run: mix the element kinds so that the coqc shards are balanced
     return rng.fork("order").shuffle(cases)
+
+def spx(g, elt):
+    """evaluation point / scalar factor from the special menu: 0, -0.0, 1, -1, 2, 1/2, for Complex also +-i, 1+-i, ..."""
+    return g.choice(special_scalars(elt))
+
+def special_structure_cases(rng, tier):
+    """Operands with special STRUCTURE (the random menus above draw each coefficient independently, so operands that are
+    related to one another, all-zero, one-term, ... occur rarely or never):
+      related-<elt>     q stands in a relation to p: equal values (a separate object), -p, c*p, x^k*p, reversed, p', one
+                        coefficient different -- fast paths keyed on `p == q` (squaring, p - p = 0, ...) and cancellation
+      struct-<elt>      one operand (the LONGER one; in the thorough tier also the shorter one and both) from a structural
+                        class: all-zero of length >= 2, monomial c*x^k, two or more vanishing leading coefficients, zero
+                        interior, all ones, alternating signs, all equal, zeros of either sign (-0.0), every coefficient
+                        from the special menu (Complex: on the axes, +-i, 1+-i)
+      evaluation point and scalar factor from the special menu in all of them; the same classes for poly.access
+      (indices first / last / one past the end), special arguments for poly.ctor, and histories (poly.hist)."""
+    cases = []
+    thorough = tier == "thorough"
+    for elt in ('rat', 'f64', 'cplx'):
+        g = rng.fork("related-" + elt)
+        for k, rel in enumerate(RELATIONS):
+            lens = range(1, 10) if thorough else [g.range(3, 5), g.range(6, 9)]
+            for j, lp in enumerate(lens):
+                p = rpoly(g, elt, lp) if g.chance(2, 3) else struct_poly(g, elt, lp, "axis")
+                q = related_poly(g, elt, p, rel)
+                if g.chance(1, 2) and rel not in ("equal", "negated"): p, q = q, p
+                kinds = ("ring", "calc") if (thorough or rel == "equal") else (("ring",) if (j + k) % 2 == 0 else ("calc",))
+                for kind in kinds:
+                    vals = [p, q, spx(g, elt), spx(g, elt)] + ([len(p) + 1] if kind == "calc" else [])
+                    cases.append(mk_case(elt, kind, vals, "related-%s-%s" % (rel, elt), nontrivial=(len(p) >= 2 and len(q) >= 2)))
+        g = rng.fork("struct-" + elt)
+        for k, cls in enumerate(STRUCTS):
+            if elt == 'rat' and cls == "neg-zeros" and not thorough: continue
+            # (length of the structured operand, length of the other one)
+            shapes = [(a, b) for a in (1, 2, 3, 5, 8) for b in (1, 2, 4, 7)] if thorough else [(g.range(3, 7), g.range(1, 2)), (g.range(2, 4), g.range(4, 6))][:2 if k % 2 == 0 else 1]
+            for j, (a, b) in enumerate(shapes):
+                sp, other = struct_poly(g, elt, a, cls), rpoly(g, elt, b)
+                # ring: the structured operand on the right (p+q, q+p, p-q, q-p, p*q, q*p all see it); calc: on the left (its derivatives)
+                vals = [other, sp, spx(g, elt), spx(g, elt)]
+                cases.append(mk_case(elt, "ring", vals, "struct-%s-%s" % (cls, elt), nontrivial=(a >= 2 and b >= 2)))
+                if thorough or j == 0:
+                    cases.append(mk_case(elt, "calc", [sp, other, spx(g, elt), spx(g, elt), a + 1], "struct-%s-%s" % (cls, elt), nontrivial=(a >= 2 and b >= 2)))
+            # both operands structured (one rotating pair of classes per seed in the quick tier)
+            others = STRUCTS if thorough else [STRUCTS[(k + g.range(1, len(STRUCTS) - 1)) % len(STRUCTS)]]
+            for c2 in others:
+                a, b = g.range(2, 5), g.range(2, 5)
+                vals = [struct_poly(g, elt, a, cls), struct_poly(g, elt, b, c2), spx(g, elt), spx(g, elt)]
+                cases.append(mk_case(elt, "ring", vals, "struct-pair-" + elt))
+        g = rng.fork("access-special-" + elt)
+        for cls in STRUCTS:
+            if elt == 'rat' and cls == "neg-zeros": continue
+            for lp in (range(1, 6) if thorough else [g.range(2, 5)]):
+                p = struct_poly(g, elt, lp, cls)
+                for i in ((0, lp - 1, lp) if thorough else (g.choice([0, lp - 1]), lp)):
+                    cases.append(mk_case(elt, "access", [p, i, spx(g, elt)], "access-special-" + elt))
+        g = rng.fork("ctor-special-" + elt)
+        menu = special_scalars(elt)
+        for k in range(len(menu) if thorough else 3):
+            # each argument in turn from the special menu (a vanishing leading coefficient a = 0 included), the others random
+            v = [sval(g, elt) for _ in range(4)]
+            v[k % 4] = menu[(k + g.below(len(menu))) % len(menu)] if not thorough else menu[k]
+            if k % 3 == 0: v[0] = conv(elt, 0)
+            cases.append(mk_case(elt, "ctor", v, "ctor-special-" + elt))
+    return cases
 
 def exact_zero(elt):
     return {'rat': Fraction(0), 'f64': 0.0, 'cplx': complex(0.0, 0.0)}[elt]
